@@ -72,3 +72,49 @@ def transform_workload(ctx, rnd, mon, ids=None, random_share=0.15, kinds=None, m
         out, _e = run_op(tr, op, tr.doc.content.size, 40)
         ctx.count("op_%s:%s" % (out, op.name))
     mon.origin = "primitive"
+    if getattr(mon, "c03", False) and tr.steps:
+        check_history_mapping(ctx, sch, tr)
+
+
+def check_history_mapping(ctx, sch, tr):
+    """C03, history clause: Transform.mapping maps every token of `before` that no step of the
+    history touched to its place in the final document (tracked step by step with the
+    reference rule, compared with the library's composed mapping)."""
+    from .. import refmap
+
+    leaf = sch.leaf
+    docs = list(tr.docs) + [tr.doc]
+    if any(sch.ref.why_invalid(flat.pt(x)) is not None for x in docs):
+        return
+    old = flat.toks(flat.pt(docs[0])[4], leaf)
+    new = flat.toks(flat.pt(docs[-1])[4], leaf)
+    trs = [refmap.normal_ranges(list(m.ranges), bool(m.inverted)) for m in tr.mapping.maps]
+    markup_only = [type(s).__name__ not in ("ReplaceStep", "ReplaceAroundStep") for s in tr.steps]
+    ctx.count("history_mappings")
+    ctx.ev()
+    tracked = 0
+    for i, t in enumerate(old):
+        pos = i
+        alive = True
+        for tr_ in trs:
+            if not refmap.token_outside(tr_, pos):
+                alive = False
+                break
+            pos = refmap.map_pos(tr_, pos, 1).pos
+        if not alive:
+            continue
+        try:
+            j = tr.mapping.map(i, 1)
+        except Exception as e:
+            ctx.violation("history-mapping", "Transform.mapping.map(%d) raised %s: %s" % (i, type(e).__name__, e),
+                          {"schema": sch.id, "steps": [s.to_json() for s in tr.steps]}, {"exc": type(e).__name__})
+            return
+        u = new[j] if 0 <= j < len(new) else None
+        same = u is not None and u[0] == t[0] and (t[0] == "C" or u[1] == t[1]) if any(markup_only) else u == t
+        if j != pos or not same:
+            ctx.violation("history-mapping", "token %d %r of `before` is untouched by the %d steps; Transform.mapping sends it to %d (reference %d) where the final document has %r"
+                          % (i, t, len(trs), j, pos, u), {"schema": sch.id, "before": str(docs[0])[:300], "steps": [s.to_json() for s in tr.steps]},
+                          {"nsteps": len(trs)})
+            return
+        tracked += 1
+    ctx.count("history_tokens_tracked", tracked)
